@@ -53,6 +53,42 @@ def _is_td(o):
     return isinstance(o, (timedelta, pd.Timedelta))
 
 
+class SymSeconds(SymReal):
+    """A number of seconds that is an integer count of microseconds (timedelta.total_seconds(),
+    a latency).  Comparisons between two of them, or with a concrete number, are decided on
+    the integer microsecond counts, which keeps the whole timeline in linear *integer*
+    arithmetic (z3 5.1 times out on the mixed Int/Real form of the same problems).  Any other
+    arithmetic falls back to the real-valued term ToReal(us)/10**6."""
+    __slots__ = ("us",)
+
+    def __init__(self, us, vs=_EMPTY):
+        SymReal.__init__(self, z3.ToReal(us) / US, vs, False)
+        self.us = us
+
+    def _cmp(self, o, op):
+        ous = None
+        ovs = _EMPTY
+        if isinstance(o, SymSeconds):
+            ous, ovs = o.us, o.vs
+        elif isinstance(o, (int, float, np.integer, np.floating)) and not isinstance(o, bool):
+            f = float(o) * US
+            if f == f and abs(f) < 1e18:
+                if f == int(f):
+                    ous = z3.IntVal(int(f))
+                else:
+                    # k <= x  <=>  k <= floor(x) ;  k < x <=> k <= floor(x) ; k >= x <=> k >= ceil(x) ...
+                    import math as _m
+                    lo, hi = _m.floor(f), _m.ceil(f)
+                    a = self.us
+                    e = {"lt": a <= lo, "le": a <= lo, "gt": a >= hi, "ge": a >= hi, "eq": z3.BoolVal(False)}[op]
+                    return SymBool(e, self.vs, False)
+        if ous is None:
+            return SymReal._cmp(self, o, op)
+        a, b = self.us, ous
+        e = {"lt": a < b, "le": a <= b, "gt": a > b, "ge": a >= b, "eq": a == b}[op]
+        return SymBool(e, self.vs | ovs, False)
+
+
 class SymDelta:
     __slots__ = ("e", "vs")
 
@@ -69,8 +105,9 @@ class SymDelta:
         return None
 
     def total_seconds(self):
-        e = self.e if self.e.is_real() else z3.ToReal(self.e)
-        return SymReal(e / US, self.vs, False)
+        if self.e.is_real():
+            return SymReal(self.e / US, self.vs, False)
+        return SymSeconds(self.e, self.vs)
 
     def _cmp(self, o, op):
         l = SymDelta._lift(o)
@@ -341,6 +378,17 @@ def sym_time_real(c, name, lo=LO_DEFAULT, hi=HI_DEFAULT):
     if hi is not None:
         c.assume(SymBool(v < dt_to_us(hi), t.vs), "time-bound")
     return t
+
+
+def sym_latency(c, name, hi_seconds=86400 * 400):
+    """A latency in seconds: an integer number of microseconds >= 0 (w.l.o.g.: every quantity
+    it is compared with is itself a whole number of microseconds)."""
+    if c.mode == "conc":
+        return int(_str_to_frac(str(c.values[name]))) / US
+    v = c._declare(name, "time")
+    x = SymSeconds(v, frozenset([name]))
+    c.assume(SymBool(z3.And(v >= 0, v <= hi_seconds * US), x.vs), "latency-bound")
+    return x
 
 
 def sym_seconds(c, name, lo_us=None, hi_us=None):
